@@ -46,7 +46,8 @@ CLAIMED.update({
                 "parsed records re-parses to itself. evolution_roundtrip (Evolution*.lean): END-TO-END schema evolution — for two schemas that agree except on one class, of which the older "
                 "keeps ANY sub-list of the fields (oneof members included), and every MsgOk value m of the newer class: the older program parses bytes(m), re-encodes it, and the newer program "
                 "parses that back to a value ValEqv-equivalent to m with the same unknown fields and the same oneof selection (a selected member the older class dropped travels through the "
-                "unknown bytes and is re-selected); evolution_detail gives the intermediate message and bytes; proved from C01's round trip, C02's permutation / unknown-interleaving theorems and a projection lemma.",
+                "unknown bytes and is re-selected); evolution_detail gives the intermediate message and bytes; proved from C01's round trip, C02's permutation / unknown-interleaving theorems and a projection lemma. "
+                "TIED TO THE SOURCE BY TRANSLATION (Props/C08Src, through the Message.load record step of Props/C02Src): src_unknown_record_kept, src_unknown_kept — the decoder as written appends an unknown record's raw bytes verbatim and touches nothing else.",
         "note": TB + "the evolving class must not be referred to by a field (its own or another class's: nested payloads would be reordered too) — decidable SchemaFree; schema changes other than dropping fields are not covered.",
         "technique": "Lean 4 proof (induction over the parsed record list; locality of record decoding) + differential correspondence with older-schema readers",
         "design_ref": "DESIGN.md §7 C08",
@@ -66,7 +67,8 @@ CLAIMED.update({
                 "only appends its raw bytes to the unknown fields (no value, selection or presence changes); wireFits agrees with the regenerated WIRE_TYPE_BY_PROTO_TYPE table for every type; "
                 "ok_welltyped: for every well-formed schema (decidable WfSchemaT) and EVERY byte string, whatever parse returns holds in every slot, at every nesting level, a value of the field's declared "
                 "Python type (MsgTyped, decidable), and ok_reencodes: it can be encoded again (induction on the decoder's nesting fuel with a typed-state invariant of the fold). "
-                "TIED TO THE SOURCE BY TRANSLATION (Props/C17Src): load_fields (the framing generator of every decode path, run to the end) and _read_exact are re-translated from the Python AST on every run and proved EQUAL to the model loadFields on every byte string (same records, whole input consumed, same exception, termination); src_midfield_prefix_rejected, src_invalid_tag_rejected, src_accepted_is_wellformed are theorems about the code as written.",
+                "TIED TO THE SOURCE BY TRANSLATION (Props/C17Src): load_fields (the framing generator of every decode path, run to the end) and _read_exact are re-translated from the Python AST on every run and proved EQUAL to the model loadFields on every byte string (same records, whole input consumed, same exception, termination); src_midfield_prefix_rejected, src_invalid_tag_rejected, src_accepted_is_wellformed are theorems about the code as written. "
+                "Through the Message.load record step (Props/C02Src): src_mismatch_is_unknown, src_fitting_not_unknown — a known number with an unfitting wire type only appends its raw bytes to the unknown fields, in the decoder as written.",
         "note": TB + "ok_reencodes carries WfBytes (every list element < 256), an artefact of modelling bytes as List Nat (shown necessary by a decided witness); the link between WfSchemaT and what the plugin can emit is argued, not proved.",
         "technique": "Lean 4 proof (induction over the record list, truncation lemmas for varints/payloads) + differential correspondence on mutated encodings",
         "design_ref": "DESIGN.md §7 C17",
@@ -81,7 +83,8 @@ CLAIMED.update({
                 "one preservation lemma per operation). Corollaries: assigning a member (its default included) selects it; reading any other member raises; an unselected member contributes "
                 "no bytes to the encoding. JSON half, proved: json_exclusive (for every schema whose oneof members are as protoc admits them, every casing, every instance: a member that is not the selected one has no "
                 "entry in to_dict / to_json, the selected member has exactly one — its default value included — unless it holds None in a message / wrapper / 64-bit / enum field, and any member with an entry is "
-                "which_one_of's answer), json_exclusive_after_history / _from_fresh (the same after ANY operation history).",
+                "which_one_of's answer), json_exclusive_after_history / _from_fresh (the same after ANY operation history). "
+                "TIED TO THE SOURCE BY TRANSLATION (Props/C07Src): __setattr__, __getattribute__, which_one_of and _include_default_value_for_oneof are re-translated from the Python AST on every run and proved EQUAL to the model's setAttr / getAttr / selectedInGroup; src_assign_selects, src_other_member_raises, src_setattr_exclusive (one step of the exclusivity invariant) are theorems about the code as written.",
         "note": TB + "constructor calls naming two members of one group are outside the property's domain (\"the member set last\" is undefined); to_dict is the C04 model (BpModel/Json.lean), tied to the implementation by C04's correspondence.",
         "technique": "Lean 4 proof (state-machine invariant, induction over operation histories) + lock-step differential correspondence of random histories",
         "design_ref": "DESIGN.md §7 C07",
@@ -106,7 +109,8 @@ CLAIMED.update({
                 "satisfying the oneof invariant; a pickle round trip is parse(bytes(m)); for every well-typed value (MsgOk, the decidable domain of C01) copy and deepcopy return a value that is the original "
                 "(copy_is_original: same slots at every level, the constructor re-derives exactly the selection the message has), hence encodes to the same bytes (copy_bytes_faithful) and stays well-typed "
                 "(copy_stays_welltyped); the one premise used beyond typing, 'a selected oneof member is set', is shown sharp by a decided counterexample. Independence of deep copies (aliasing) is checked on the implementation. "
-                "THE ALIASING HALF (Props/C14Heap, BpModel/Heap.lean): over a heap model with object identity (cells msg / list / dict / gcur / bytes; _group_current is its own cell) deepcopy_disjoint, deepcopy_value, deepcopy_independent (every legal mutation sequence through a deep copy leaves the original's abstract value unchanged, and vice versa), pickle_copy_independent, shallow_copy_shares_exactly, with decided witnesses that sharing the gcur cell or mutating _unknown_fields in place breaks independence; tied to the code by a sharing-pattern correspondence (object identity along every path observed with `is`, mutations applied to the real objects and to the model).",
+                "THE ALIASING HALF (Props/C14Heap, BpModel/Heap.lean): over a heap model with object identity (cells msg / list / dict / gcur / bytes; _group_current is its own cell) deepcopy_disjoint, deepcopy_value, deepcopy_independent (every legal mutation sequence through a deep copy leaves the original's abstract value unchanged, and vice versa), pickle_copy_independent, shallow_copy_shares_exactly, with decided witnesses that sharing the gcur cell or mutating _unknown_fields in place breaks independence; tied to the code by a sharing-pattern correspondence (object identity along every path observed with `is`, mutations applied to the real objects and to the model). "
+                "TIED TO THE SOURCE BY TRANSLATION (Props/C14Src, C14SrcCopy): __bool__, serialized_on_wire, is_set, __eq__ (= the model's msgEq on raw slots, oracle for Python's !=) and __copy_state_to (= shallowCopy / deepCopy of the model, _group_current copied) are re-translated from the Python AST and proved equal to the model; an observer that writes to the object, or a copy that shares _group_current, does not translate.",
         "note": TB + "PARTIAL: independence of a deep / unpickled copy is aliasing, which a pure functional model cannot exhibit — checked at run time by mutating every mutable path of the copy "
                 "(assigning other oneof members, growing containers, merging unknown fields into the copy) and comparing the original's bytes and presence.",
         "technique": "Lean 4 proof (invariance of the encoder under default materialisation) + lock-step differential correspondence + run-time aliasing check",
